@@ -275,6 +275,41 @@ def _success_sides(body, fd, sw):
     return n
 
 
+def _lift_threshold(ctx, cfg, fn, zf, sym, k, depth=0):
+    """(owner, zone of owner, symbol, constant): the comparison `sym ? k` of fn, restated in every caller when sym is an integer parameter of a
+    function that is not part of the public interface (the decision then belongs to whoever chose the argument)."""
+    import re as _re
+    from flow import local_target as _lt
+    prog, za, eng = ctx.prog(cfg), ctx.zone(cfg), ctx.eng(cfg)
+    m = _re.match(r'^p(\d+)$', sym or '')
+    if fn is None or not m or depth > 3 or prog.bodies[fn].j.get('pub'):
+        yield (fn if fn is not None else zf.body.j.get('parent_fn', zf.body.path), zf, sym, k)
+        return
+    sites = []
+    for cb in prog.bodies.values():
+        for bi, t in cb.calls():
+            if _lt(eng, t) == fn:
+                sites.append((cb, t))
+    if not sites:
+        yield (fn, zf, sym, k)
+        return
+    ai = int(m.group(1)) - 1
+    for cb, t in sites:
+        if cb.kind == 'Closure' or ai >= len(t['args']):
+            yield (fn, zf, sym, k)
+            continue
+        za.summary(cb.path)
+        czf = za.zf(cb.path)
+        tt = czf.term_op(t['args'][ai])
+        if tt is None:
+            yield (fn, zf, sym, k)
+        elif tt[0] is None:
+            continue              # a literal argument: the comparison is decided at compile time for this caller
+        else:
+            for r in _lift_threshold(ctx, cfg, cb.path, czf, tt[0], k - tt[1], depth + 1):
+                yield r
+
+
 def rule_size_thresholds(ctx, cfg='prod-all', scope=('bbsplus::', 'utils::util::bbsplus_utils', 'utils::message::bbsplus_message', 'utils::util::get_remaining')):
     """A *size special case* is a branch on `count OP literal` both of whose outcomes can still end in success, or a partition of a list at a
     literal size: vectors on either side are processed by different code, which no fixture sees unless it happens to cross the literal.
@@ -314,6 +349,14 @@ def rule_size_thresholds(ctx, cfg='prod-all', scope=('bbsplus::', 'utils::util::
                     a, c = zf.term_op(d[2]['rv']['a']), zf.term_op(d[2]['rv']['b'])
                     if a is not None and c is not None and (a[0] is None) != (c[0] is None):
                         sym, k = (a, c[1]) if c[0] is None else (c, a[1])
+                        # a variable assigned on several paths: if one plain copy is the only definition reaching the comparison, it is that value
+                        if sym[0].startswith('m') and sym[0][1:].isdigit() and d[1] is not None:
+                            si = b.blocks[d[1]]['stmts'].index(d[2]) if d[2] in b.blocks[d[1]]['stmts'] else None
+                            rd = zf.reaching_defs(int(sym[0][1:]), d[1], si)
+                            if rd and len(rd) == 1 and rd[0][0] == 'assign' and rd[0][2]['rv']['k'] == 'use':
+                                t2 = zf.term_op(rd[0][2]['rv']['op'])
+                                if t2 is not None and t2[0] is not None and not t2[0].startswith('m'):
+                                    sym = (t2[0], t2[1] + sym[1])
                         # normalise `x + j  OP  k` to a threshold on x
                         found.append((sym[0], k - sym[1]))
                     break
@@ -329,16 +372,18 @@ def rule_size_thresholds(ctx, cfg='prod-all', scope=('bbsplus::', 'utils::util::
                 if sym is not None and sym.startswith('i'):
                     continue      # loop induction variable against a constant: not a size decision
                 n_all += 1
-                if _is_byte_len_sym(zf, sym):
-                    continue
                 if b.kind != 'Closure' and _success_sides(b, fd, bi) < 2:
                     continue      # a guard: one outcome can only fail
-                n += 1
-                ok = (owner, k) in THRESHOLDS
-                yield Ob('RF-T', '%s#threshold:%s' % (owner, k), ok,
-                         'both outcomes of a comparison of a count with the literal %s can succeed: size-dependent special cases must be the ones of the drafts' % k,
-                         '%s L%s' % (b.file(), t.get('line')), fact={'term': sym, 'constant': k, 'reason': THRESHOLDS.get((owner, k))},
-                         expected='tabled threshold')
+                # a threshold on a plain integer parameter of a private helper is a threshold on what its callers pass
+                for own, ozf, osym, ok_ in _lift_threshold(ctx, cfg, owner if b.kind != 'Closure' else None, zf, sym, k):
+                    if _is_byte_len_sym(ozf, osym):
+                        continue
+                    n += 1
+                    ok = (own, ok_) in THRESHOLDS
+                    yield Ob('RF-T', '%s#threshold:%s' % (own, ok_), ok,
+                             'both outcomes of a comparison of a count with the literal %s can succeed: size-dependent special cases must be the ones of the drafts' % ok_,
+                             '%s L%s' % (b.file(), t.get('line')), fact={'term': osym, 'constant': ok_, 'reason': THRESHOLDS.get((own, ok_)), 'compared_in': p},
+                             expected='tabled threshold')
         # partitioning by a constant size: chunks(N), split_at(N), take(N), len.min(N) ... treat sizes below and above N differently without a branch
         for bi, t in b.calls():
             cal = t.get('callee') or ''
